@@ -231,7 +231,8 @@ def gen_cases(tier, seed):
         R = rng.normal(size=3)
         R = R / np.linalg.norm(R) * float(10 ** rng.uniform(2.5, 4.0))
         nat = 1 + i % 2
-        cen = [R + rng.normal(size=3) * (0.0 if a == 0 else 1.2) for a in range(nat)]
+        # second atom: a neighbour, or (every fourth case) a finite-difference displaced copy a few 1e-3 bohr away
+        cen = [R + rng.normal(size=3) * (0.0 if a == 0 else (0.004 if i % 4 == 3 else 1.2)) for a in range(nat)]
         shells = []
         for j in range(4):
             K = int(rng.integers(1, 4))
